@@ -10,6 +10,7 @@ import (
 	"math/rand"
 	"runtime"
 	"strings"
+	"sync/atomic"
 	"time"
 
 	"github.com/varlink/go/varlink"
@@ -219,6 +220,49 @@ func runPairCase(r *fw.Run, p *Pair, prop string, c *pairCase, framing bool) int
 	return viol
 }
 
+// c02DeadlineThenPause: the meaning of the stream must not depend on pauses between segments - also when an earlier
+// call on the same connection ran under a deadline that has meanwhile passed.
+func c02DeadlineThenPause(r *fw.Run, p *Pair, tr string, k int) {
+	cs := map[string]interface{}{"what": "deadline-then-pause", "transport": tr}
+	p.Proxy.TakeConns()
+	p.Rig.Log.Take()
+	p.Proxy.Reseg = 0
+	conn, err := p.Connect(context.Background())
+	if err != nil {
+		r.Inconclusive("connect: %v", err)
+		return
+	}
+	defer conn.Close()
+	script := func(id string) *CallScript {
+		return &CallScript{ID: id, Steps: []Step{{Op: "reply", Raw: json.RawMessage(`{"echo":"` + id + `"}`)}}}
+	}
+	ctxA, cancelA := context.WithTimeout(context.Background(), 300*time.Millisecond)
+	var out json.RawMessage
+	errA := conn.Call(ctxA, pairMethod, script(fmt.Sprintf("dl%d", k)), &out)
+	cancelA()
+	if errA != nil {
+		r.Inconclusive("deadline-then-pause: the first call did not complete within its 300 ms deadline (%v)", errA)
+		return
+	}
+	atomic.StoreInt32(&p.Proxy.PauseNextMS, 450)
+	done := make(chan error, 1)
+	var out2 json.RawMessage
+	go func() { done <- conn.Call(context.Background(), pairMethod, script(fmt.Sprintf("bg%d", k)), &out2) }()
+	select {
+	case err := <-done:
+		if err != nil {
+			r.Violation("C02 pause-inside-message", fmt.Sprintf("transport %s: a reply whose two halves arrived 450 ms apart was not received: Call returned %T %v (an earlier call on the connection had a 300 ms deadline)", tr, err, err), cs)
+		} else if d := jEqual([]byte(fmt.Sprintf(`{"echo":"bg%d"}`, k)), out2); d != "" {
+			r.Violation("C02 pause-inside-message", "reply changed: "+d, cs)
+		}
+	case <-time.After(30 * time.Second):
+		r.Violation("C02 pause-inside-message", fmt.Sprintf("transport %s: a reply whose two halves arrived 450 ms apart was not received within 30 s", tr), cs)
+	}
+	atomic.StoreInt32(&p.Proxy.PauseNextMS, 0)
+	r.Count("pause_inside_message_cases", 1)
+	r.Case(fw.Hash("dlpause", tr, fmt.Sprint(k)), true)
+}
+
 func genPairCalls(rng *rand.Rand, jg *JGen, tag string, n int, depth int) []PairCall {
 	var out []PairCall
 	for i := 0; i < n; i++ {
@@ -359,6 +403,10 @@ func runC02(r *fw.Run) {
 				r.Case(fw.Hash("big", tr, fmt.Sprint(sz, reseg)), true)
 				r.Max("max_frame_bytes", int64(sz))
 			}
+		}
+		// a pause in the middle of a reply that outlasts the deadline of an EARLIER, completed call on the same connection
+		for k := 0; k < r.Pick(2, 8); k++ {
+			c02DeadlineThenPause(r, p, tr, k)
 		}
 		// every message length in a window around each multiple of the reader buffer size, both directions
 		for _, centre := range []int{4096, 8192, 65536} {
